@@ -8,8 +8,9 @@ FILES="Gen/Prelude Gen/LinalgInternal Gen/Linalg Gen/Knotvector Gen/Helpers
 Proofs/GenTieLib Proofs/GenTieKnots Proofs/GenTieSpan Proofs/GenTieBasis Proofs/GenTieBasisOne Proofs/GenTieDersOne
 Proofs/GenTieDersLib Proofs/GenTieDers Proofs/GenTieKnotIns Proofs/GenTieSums Proofs/GenTieLinAlg Proofs/GenTieSubst
 Proofs/GenTieLU Proofs/GenTieLUSolve Proofs/GenTieKnotRem Proofs/GenTieDegree
-Gen/PreludeExt Gen/LinalgGeom Gen/Voxelize Gen/Utilities Gen/LinalgMat
-Proofs/GenTieLib2 Proofs/GenTieGeom Proofs/GenTieVoxel Proofs/GenTieBBox Proofs/GenTieHull"
+Gen/PreludeExt Gen/LinalgGeom Gen/Voxelize Gen/Utilities Gen/LinalgMat Gen/HelpersB Gen/Fitting
+Proofs/GenTieLib2 Proofs/GenTieGeom Proofs/GenTieVoxel Proofs/GenTieBBox Proofs/GenTieHull
+Proofs/GenTieMat Proofs/GenTieMatSolve Proofs/GenTieBinom Proofs/GenTieElev Proofs/GenTieFit"
 start="$1"; go=1; [ -n "$start" ] && go=0
 for f in $FILES; do
   [ "$f" = "$start" ] && go=1
